@@ -109,7 +109,7 @@ static void random_case(void)
 }
 struct case_budget chk_budget(const char *tier)
 {
-        struct case_budget b = { N_SWEEP, strcmp(tier, "thorough") == 0 ? 3000000 : 120000 };
+        struct case_budget b = { N_SWEEP, strcmp(tier, "thorough") == 0 ? 25000000 : 500000 };
         return b;
 }
 void chk_run_case(uint64_t seed, long c, bool is_sweep) { (void)seed; ARG_NOTE[0] = 0; if (is_sweep) sweep_case(c); else random_case(); }
